@@ -89,7 +89,7 @@ struct Ctx {
     void label(const std::string &s) { labels.push_back(s); }
     void label(const char *s) { labels.emplace_back(s); }
     bool is_known(const char *id) const { return known.count(id) != 0; }
-    void exclude(const char *id) { excluded.emplace_back(id); }
+    void exclude(const char *id) { for (auto &e : excluded) if (e == id) return; excluded.emplace_back(id); }
     int dump_fd = -1;             // when >= 0, description lines are also written here at once (survives a crash)
     void d(const std::string &s) { if (dump) { desc += s; desc += '\n'; if (dump_fd >= 0) { std::string t = s + "\n"; ssize_t w = ::write(dump_fd, t.data(), t.size()); (void)w; } } }
 };
